@@ -77,8 +77,6 @@ Proof.
   - destruct (path_eqb p q); [reflexivity | exact IH].
 Qed.
 
-Definition is_prefix {A} (p l : list A) : Prop := exists q, l = p ++ q.
-
 Lemma take_prefix k (b : bytes) : is_prefix (take k b) b.
 Proof. exists (drop k b). unfold take, drop. symmetry; apply firstn_skipn. Qed.
 
